@@ -27,8 +27,12 @@ MAX_STEPS = 200_000
 class Fld:
     """A field descriptor (hashable by identity, like dataclasses.Field)."""
 
-    def __init__(self, name: str, compare: bool = True, init: bool = True) -> None:
+    def __init__(self, name: str, compare: bool = True, init: bool = True, hash: Any = None, repr: bool = True, kw_only: bool = False) -> None:
         self.name, self.compare, self.init = name, compare, init
+        # attributes of dataclasses.Field that the documented flag table does NOT depend on: a generator that reads them is
+        # evaluated for several of their values and must emit the same code for all
+        self.hash, self.repr, self.kw_only = hash, repr, kw_only
+        self.metadata: dict = {}
 
     def __repr__(self) -> str:
         return f"<Field {self.name}>"
@@ -48,7 +52,7 @@ class Opaque:
         return f"<{self.what}>"
 
 
-ALLOWED_ATTRS = {Fld: {"name", "compare", "init"}, TypeInfo: {"is_collection", "resolved_type"}}
+ALLOWED_ATTRS = {Fld: {"name", "compare", "init", "hash", "repr", "kw_only", "metadata"}, TypeInfo: {"is_collection", "resolved_type"}}
 
 
 class _Ret(Exception):
